@@ -368,7 +368,6 @@ impl Format {
                     if &s[idx..idx + 1] == "-" {
                         offset_sign = -1;
                     }
-                    prev_idx += 1;
                 }
             }
         }
